@@ -4,7 +4,7 @@ package main
 // generated main VCL + one generated test file.
 //
 // request : <cov 0|1> <hex of main.vcl> <hex of main.test.vcl>
-// reply   : ok (case "hex name" <scope> <skip> <none|assert|testing|other> (logs "hex"...))... (counter a p f s) <exit>
+// reply   : ok (case "hex group" "hex name" <scope> <skip> <none|assert|testing|other> (logs "hex"...))... (counter a p f s) <exit>
 //           runerr <msg>  when Run itself fails (runTest would print the message and exit 1)
 
 import (
@@ -85,7 +85,7 @@ func testRun(args string) string {
 			for k, l := range c.Logs {
 				logs[k] = hx(l)
 			}
-			fmt.Fprintf(&sb, " (case %s %s %s %s (logs %s))", hx(c.Name), c.Scope, b01(c.Skip), kind, strings.Join(logs, " "))
+			fmt.Fprintf(&sb, " (case %s %s %s %s %s (logs %s))", hx(c.Group), hx(c.Name), c.Scope, b01(c.Skip), kind, strings.Join(logs, " "))
 		}
 	}
 	st := factory.Statistics
